@@ -2,7 +2,8 @@
 // ElitistSelection on integer populations (exact).  One op per stdin line, one observation line
 // per op (format of lean/Driver/C14.lean).  The flags of the partially selected front are printed exactly for the
 // indicators with an exact model (hv with reference, hv without reference in 2-D, crowd, eps) and as '?' otherwise.  Oracle: exactly mu individuals selected; no selected
-// individual has a worse non-domination rank than an unselected one; ranks satisfy the definition.
+// individual has a worse non-domination rank than an unselected one; ranks satisfy the definition; the members the hypervolume
+// indicator discards from the last front are least contributors (brute-force hypervolume, ties allowed, 2-3 objectives, with/without reference).
 #include <shark/Algorithms/DirectSearch/Individual.h>
 #include <shark/Algorithms/DirectSearch/Operators/Selection/IndicatorBasedSelection.h>
 #include <shark/Algorithms/DirectSearch/Operators/Selection/ElitistSelection.h>
@@ -33,6 +34,106 @@ static bool weakDom(RealVector const& p, RealVector const& q){
 	return true;
 }
 static bool strictDom(RealVector const& p, RealVector const& q){ return weakDom(p,q) && !weakDom(q,p); }
+
+// ---------------------------------------------------------------- independent oracle for the hypervolume indicator's choice
+// exact dominated hypervolume of integer points w.r.t. ref by coordinate compression (points that are not strictly below
+// ref in every objective dominate nothing inside the reference box)
+typedef std::vector<double> DPt;
+static double hvBrute(std::vector<DPt> const& pts, DPt const& ref){
+	std::size_t m = ref.size();
+	std::vector<DPt> in;
+	for(auto const& p: pts){ bool ok = true; for(std::size_t d = 0; d != m; ++d) ok = ok && p[d] < ref[d]; if(ok) in.push_back(p); }
+	if(in.empty()) return 0;
+	std::vector<std::vector<double> > ax(m);
+	for(std::size_t d = 0; d != m; ++d){
+		for(auto const& p: in) ax[d].push_back(p[d]);
+		ax[d].push_back(ref[d]);
+		std::sort(ax[d].begin(), ax[d].end()); ax[d].erase(std::unique(ax[d].begin(), ax[d].end()), ax[d].end());
+	}
+	double vol = 0;
+	std::vector<std::size_t> idx(m, 0);
+	for(;;){
+		bool covered = false;
+		for(auto const& p: in){ bool le = true; for(std::size_t d = 0; d != m; ++d) le = le && p[d] <= ax[d][idx[d]]; if(le){ covered = true; break; } }
+		if(covered){ double c = 1; for(std::size_t d = 0; d != m; ++d) c *= ax[d][idx[d] + 1] - ax[d][idx[d]]; vol += c; }
+		std::size_t d = 0;
+		for(; d != m; ++d){ if(++idx[d] + 1 < ax[d].size()) break; idx[d] = 0; }
+		if(d == m) break;
+	}
+	return vol;
+}
+// mode 0: explicit reference `ref`; mode 1: no reference point (implicit reference = component-wise maximum of the current front,
+// points that are extreme are no candidates: 2-D first/last of the lexicographic order, 3-D the first minimiser of each objective)
+static std::vector<bool> candidates(std::vector<DPt> const& f, int mode){
+	std::size_t n = f.size(), m = f[0].size();
+	std::vector<bool> c(n, true);
+	if(mode == 0) return c;
+	if(m == 2){
+		if(n <= 2) return c;                          // the routine returns index 0: nothing to require
+		std::size_t lo = 0, hi = 0;
+		for(std::size_t i = 1; i != n; ++i){ if(f[i] < f[lo]) lo = i; if(f[hi] < f[i]) hi = i; }
+		// only the first and the last element of the sorted order are excluded: of several copies of an extreme point all but
+		// one are interior (and any copy may be the one at the end)
+		std::size_t nlo = 0, nhi = 0;
+		for(std::size_t i = 0; i != n; ++i){ if(f[i] == f[lo]) ++nlo; if(f[i] == f[hi]) ++nhi; }
+		for(std::size_t i = 0; i != n; ++i) if((f[i] == f[lo] && nlo == 1) || (f[i] == f[hi] && nhi == 1)) c[i] = false;
+		bool any = false; for(std::size_t i = 0; i != n; ++i) any = any || c[i];
+		if(!any) c.assign(n, true);
+		return c;
+	}
+	for(std::size_t d = 0; d != m; ++d){ std::size_t a = 0; for(std::size_t i = 1; i != n; ++i) if(f[i][d] < f[a][d]) a = i; c[a] = false; }
+	return c;
+}
+static DPt usedReference(std::vector<DPt> const& f, int mode, DPt const& ref){
+	if(mode == 0) return ref;
+	DPt r = f[0];
+	for(auto const& p: f) for(std::size_t d = 0; d != r.size(); ++d) r[d] = std::max(r[d], p[d]);
+	return r;
+}
+// is there an order in which the members `drop` (positions in f) can be removed one at a time, each being a candidate of
+// minimal contribution hv(front) - hv(front without it) of the front that is left?
+static bool removalOrderExists(std::vector<DPt> f, std::vector<std::size_t> drop, int mode, DPt const& ref, int& budget){
+	if(drop.empty()) return true;
+	if(--budget < 0) return true;                       // search budget exhausted: no verdict
+	std::vector<bool> cand = candidates(f, mode);
+	bool anyCand = false; for(bool b: cand) anyCand = anyCand || b;
+	if(!anyCand) return true;                           // reference-free 3-D with only extreme points: result unspecified (C13 remark)
+	DPt r = usedReference(f, mode, ref);
+	double total = hvBrute(f, r);
+	std::vector<double> con(f.size());
+	double best = 1e300;
+	for(std::size_t i = 0; i != f.size(); ++i){
+		std::vector<DPt> g(f); g.erase(g.begin() + i);
+		con[i] = total - hvBrute(g, r);
+		if(cand[i]) best = std::min(best, con[i]);
+	}
+	for(std::size_t k = 0; k != drop.size(); ++k){
+		std::size_t i = drop[k];
+		if(!cand[i] || con[i] != best) continue;
+		std::vector<DPt> g(f); g.erase(g.begin() + i);
+		std::vector<std::size_t> rest;
+		for(std::size_t j = 0; j != drop.size(); ++j) if(j != k) rest.push_back(drop[j] > i ? drop[j] - 1 : drop[j]);
+		if(removalOrderExists(g, rest, mode, ref, budget)) return true;
+	}
+	return false;
+}
+// the members of the partially selected front that the hypervolume indicator discarded must be removable in some order as
+// least contributors (ties allowed)
+static void checkHvChoice(std::vector<Ind> const& pop, int mode, RealVector const& ref, std::string& orc){
+	unsigned r = 0;
+	for(auto const& x: pop) if(x.selected()) r = std::max(r, x.rank());
+	std::vector<DPt> f; std::vector<std::size_t> drop;
+	for(auto const& x: pop) if(x.rank() == r){
+		if(!x.selected()) drop.push_back(f.size());
+		f.push_back(DPt(x.penalizedFitness().begin(), x.penalizedFitness().end()));
+	}
+	if(drop.empty() || f.empty()) return;
+	int budget = 4000;
+	if(!removalOrderExists(f, drop, mode, DPt(ref.begin(), ref.end()), budget)){
+		orc += " !oracle hv-choice-not-least-contributor front=" + std::to_string(f.size()) + " dropped=";
+		for(std::size_t i = 0; i != drop.size(); ++i) orc += (i ? "," : "") + std::to_string(drop[i]);
+	}
+}
 
 template<class Selection>
 static void runSelection(Selection& sel, std::vector<Ind>& pop, std::size_t mu, std::ostream& os, std::string& orc, bool exact = false){
@@ -92,9 +193,9 @@ int main(){
 				pop[i].selected() = ((n + mu) % 3 == 0) ? false : (((n + mu) % 3 == 1) ? (i % 2 == 0) : true);
 				pop[i].rank() = 7;
 			}
-			if(hvr){ IndicatorBasedSelection<HypervolumeIndicator> s; s.indicator().setReference(given); runSelection(s, pop, mu, os, orc, true); }
-			else if(ind == "hv"){ IndicatorBasedSelection<HypervolumeIndicator> s; s.indicator().setReference(ref); runSelection(s, pop, mu, os, orc, true); }
-			else if(ind == "hvnoref"){ IndicatorBasedSelection<HypervolumeIndicator> s; runSelection(s, pop, mu, os, orc, m == 2); }
+			if(hvr){ IndicatorBasedSelection<HypervolumeIndicator> s; s.indicator().setReference(given); runSelection(s, pop, mu, os, orc, true); checkHvChoice(pop, 0, given, orc); }
+			else if(ind == "hv"){ IndicatorBasedSelection<HypervolumeIndicator> s; s.indicator().setReference(ref); runSelection(s, pop, mu, os, orc, true); checkHvChoice(pop, 0, ref, orc); }
+			else if(ind == "hvnoref"){ IndicatorBasedSelection<HypervolumeIndicator> s; runSelection(s, pop, mu, os, orc, m == 2); checkHvChoice(pop, 1, ref, orc); }
 			else if(ind == "crowd"){ IndicatorBasedSelection<CrowdingDistance> s; runSelection(s, pop, mu, os, orc, true); }
 			else if(ind == "eps"){ IndicatorBasedSelection<AdditiveEpsilonIndicator> s; runSelection(s, pop, mu, os, orc, true); }
 			else if(ind == "nsga3"){ IndicatorBasedSelection<NSGA3Indicator> s; s.indicator().init(m, std::max<std::size_t>(mu, m), rng); runSelection(s, pop, mu, os, orc); }
